@@ -1,11 +1,11 @@
 \* C29 leg A thorough: layouts aligned5, gap4, replica, twolevel (ranges 1/2/4, three compactions), replica3;
-\* delete delay 4 ticks (sync filter 2), store-gateway ignore delay 2, <= 2 crashes at any action, any downtime
+\* delete delay 4 ticks (sync filter 2), store-gateway ignore delay 2, <= 1 crash at any action, any downtime
 SPECIFICATION Spec
 CONSTANTS Layouts <- LayoutsThorough
           DeleteDelay = 4
           IgnoreDelay = 2
-          MaxCrashes = 2
-          MaxId = 12
+          MaxCrashes = 1
+          MaxId = 10
           MarkFirst = FALSE
 INVARIANTS C29_AllServed C29_ExactlyOnceWhenQuiet C29_ResultsExact MetaImpliesData NeverHalts IdsSuffice
 PROPERTY C29_RunsFinish
